@@ -40,6 +40,19 @@ def _frames(kind, i):
         sx.assume(sx.And(p[0] >= 0xC2, p[0] <= 0xDF, p[1] >= 0x80, p[1] <= 0xBF))  # one well-formed 2-byte character
         return (server_frame(0, 1, p[:1]) + server_frame(1, 0, p[1:]),
                 [("on_data", (sx.text_of(p), 1, True)), ("on_message", (sx.text_of(p),))])
+    if kind in ("E0", "E1", "E2", "E3"):
+        # fragmented messages with EMPTY fragments: E0 binary, first fragment empty; E1 text, first fragment empty; E2 binary in
+        # three fragments, first and middle empty; E3 binary, all fragments empty (an empty message)
+        p = sx.sym_bytes("e%d" % i, 2)
+        if kind == "E0":
+            return server_frame(0, 2, b"") + server_frame(1, 0, p), [("on_data", (p, 2, True)), ("on_message", (p,))]
+        if kind == "E1":
+            sx.assume(sx.And(p[0] < 128, p[1] < 128))
+            return server_frame(0, 1, b"") + server_frame(1, 0, p), [("on_data", (sx.text_of(p), 1, True)), ("on_message", (sx.text_of(p),))]
+        if kind == "E2":
+            return (server_frame(0, 2, b"") + server_frame(0, 0, b"") + server_frame(1, 0, p),
+                    [("on_data", (p, 2, True)), ("on_message", (p,))])
+        return server_frame(0, 2, b"") + server_frame(1, 0, b""), [("on_data", (b"", 2, True)), ("on_message", (b"",))]
     if kind in ("L", "M"):  # a large binary message: more than one 16 KiB read (L) / a 16-bit length (M); 2 symbolic bytes, rest fixed
         p = sx.sym_bytes("e%d" % i, 2) + bytes((7 * j) & 255 for j in range(16390 if kind == "L" else 300))
         return server_frame(1, 2, p), [("on_data", (p, 2, True)), ("on_message", (p,))]
@@ -171,6 +184,9 @@ def obligations(tier):
         hist.append(dict(kinds=["T", "G", "B"], groups=[1, 0], tls=tls))
         hist.append(dict(kinds=["G", "P", "G"], groups=[0, 1], tls=tls))
         hist.append(dict(kinds=["F"], groups=[], tls=tls, split_frag=True))
+        for ek in ("E0", "E1", "E2", "E3"):  # fragmented messages with empty fragments (round 7)
+            hist.append(dict(kinds=[ek], groups=[], tls=tls))
+            hist.append(dict(kinds=["T", ek, "B"], groups=[1, 0], tls=tls))
         for big in ("L", "M"):  # frames that follow a large frame in the same segment / record are not left waiting
             hist.append(dict(kinds=[big, "T"], groups=[1], tls=tls))
             hist.append(dict(kinds=[big, "P", "B"], groups=[1, 1], tls=tls))
@@ -198,7 +214,7 @@ def obligations(tier):
         Obligation("E-hist", e_hist, hist,
                    bounds="all server histories of <=%d events over {text, binary, 2-fragment message, ping, pong}, every grouping of consecutive "
                           "frames into TCP segments / TLS records, symbolic payloads, arrival gaps solver reals in (0,8); plain and TLS dispatcher; plus bursts that start with a 16392-byte / 302-byte "
-                          "binary message" % emax,
+                          "binary message; plus fragmented text / binary messages whose first, middle or all fragments are empty" % emax,
                    must_cover=["hist", "tls", "burst"], budget_s=2400 if thorough else 1200, step_budget=40000,
                    kernel=["WebSocketApp.run_forever", "setSock", "read", "_callback", "Dispatcher.read", "SSLDispatcher.read", "SSLDispatcher.select",
                            "WebSocket.recv_data_frame", "WebSocket.connect", "handshake"]),
